@@ -1,2 +1,109 @@
-(* C11 — placeholder while the model is being tied; theorems follow. *)
-From CL Require Import Model.Pattern Model.Matcher.
+(* C11 — reference and l10n path patterns map files back and forth losslessly.
+
+   Model: Model/Pattern.v (PatternParser, node classes, expand, regex_pattern)
+   and Model/Matcher.v (Matcher.match / sub / prefix / ...).  Matching runs the
+   regex ENGINE (Regex/Rx.v) on the regular expression the model compiles from
+   the pattern, as the implementation runs `re` on the text it assembles.
+
+   Grammar of the theorems ([simple], Proofs/MatcherSpec.v): literal nodes,
+   variables (first occurrence or repeat) unbound or bound to a wildcard-free
+   value, stars and double stars, no root, an environment with distinct keys.
+   {android_locale}, roots, nested variable values and everything else are
+   covered by the correspondence suites of the check, not by these theorems. *)
+From Coq Require Import NArith List Bool Arith.
+From CL Require Import Base.Sx Base.Res Base.Str Regex.Rx Model.Pattern Model.Matcher
+  Proofs.MatcherSpec Proofs.MatcherSound Proofs.MatcherExpand.
+Import ListNotations.
+
+(* Soundness of matching.  If a matcher of the grammar matches a path with
+   dictionary d, then re-expanding its own pattern with the matched groups (the
+   environment Matcher.sub builds) gives the path back — up to one final
+   newline, which CPython's `$` lets through — and the wildcard values have
+   their kinds: a star's value has no '/', a double star took no part or holds
+   a non-empty text followed by its suffix. *)
+Theorem C11_match_sound : forall M path d, simple M -> match_ M path = Ok (Some d) ->
+  (exists p0, upto_final_newline path p0 /\
+              expand_pattern (sub_env d (m_env M)) false (m_pat M) = Ok p0) /\
+  kinds_ok (m_pat M) d.
+Proof.
+  intros M path d HS Hm. split; [eapply sub_self_expand; eauto|eapply match_kinds_ok; eauto].
+Qed.
+
+(* the same through the API: a.sub(a, path) is the path *)
+Theorem C11_sub_self : forall M path d, simple M -> match_ M path = Ok (Some d) ->
+  exists p0, upto_final_newline path p0 /\ sub M M path = Ok (Some p0).
+Proof.
+  intros M path d HS Hm. destruct (sub_self_expand M path d HS Hm) as [p0 [H1 H2]].
+  exists p0. split; auto. unfold sub. rewrite Hm. simpl. rewrite H2. reflexivity.
+Qed.
+
+(* ---- the grammar is inhabited and matching is not vacuous ---------------------- *)
+Definition ex_env : list (str * str) :=
+  [(of_ascii [108;111;99;97;108;101], of_ascii [100;101]);                 (* locale = de *)
+   (of_ascii [98;97;115;101], of_ascii [47;108;49;48;110])].               (* base = /l10n *)
+(* {base}/{locale}/**/x-*.ftl *)
+Definition ex_pattern : str :=
+  of_ascii [123;98;97;115;101;125;47;123;108;111;99;97;108;101;125;47;42;42;47;120;45;42;46;102;116;108].
+(* /l10n/de/a/b/x-q.ftl *)
+Definition ex_path : str :=
+  of_ascii [47;108;49;48;110;47;100;101;47;97;47;98;47;120;45;113;46;102;116;108].
+
+Example C11_example_simple :
+  exists M d, mk_matcher ex_pattern ex_env None = Ok M /\ simple M /\
+    match_ M ex_path = Ok (Some d) /\
+    lookup (star_name 1) d = Some (Some (of_ascii [97;47;98;47])) /\     (* s1 = a/b/ *)
+    lookup (star_name 2) d = Some (Some (of_ascii [113])) /\             (* s2 = q *)
+    sub M M ex_path = Ok (Some ex_path).
+Proof.
+  destruct (mk_matcher ex_pattern ex_env None) as [M|] eqn:E; [|vm_compute in E; discriminate].
+  destruct (match_ M ex_path) as [[d|]|] eqn:Em;
+    [|exfalso; vm_compute in E; inversion E; subst; vm_compute in Em; discriminate
+     |exfalso; vm_compute in E; inversion E; subst; vm_compute in Em; discriminate].
+  exists M, d. vm_compute in E. inversion E; subst M. clear E.
+  vm_compute in Em. inversion Em; subst d. clear Em.
+  split; [reflexivity|]. split.
+  - split; [vm_compute; reflexivity|]. split; [reflexivity|].
+    vm_compute. repeat constructor; simpl; intuition discriminate.
+  - split; [vm_compute; reflexivity|]. vm_compute. auto.
+Qed.
+
+(* ---- outside the grammar the round trip fails ------------------------------------ *)
+Definition mk (p : list nat) : result matcher := mk_matcher (of_ascii p) [] None.
+
+(* two stars in one segment:  r/*-*  <->  l/*_*  on  r/a-b_c :
+   mapped to l/a_b_c, which maps back to r/a_b-c *)
+Theorem C11_outside_grammar_refuted_two_stars : exists A B path mapped back,
+  mk [114;47;42;45;42] = Ok A /\ mk [108;47;42;95;42] = Ok B /\
+  sub A B path = Ok (Some mapped) /\ sub B A mapped = Ok (Some back) /\ back <> path.
+Proof.
+  destruct (mk [114;47;42;45;42]) as [A|] eqn:EA; [|vm_compute in EA; discriminate].
+  destruct (mk [108;47;42;95;42]) as [B|] eqn:EB; [|vm_compute in EB; discriminate].
+  exists A, B, (of_ascii [114;47;97;45;98;95;99]),
+    (of_ascii [108;47;97;95;98;95;99]), (of_ascii [114;47;97;95;98;45;99]).
+  vm_compute in EA. inversion EA; subst A. vm_compute in EB. inversion EB; subst B.
+  split; [reflexivity|]. split; [reflexivity|].
+  split; [vm_compute; reflexivity|]. split; [vm_compute; reflexivity|].
+  vm_compute. discriminate.
+Qed.
+
+(* two double stars:  r/**/x/**/*  <->  l/**/y/**/*  on  r/1/x/2/y/3/f :
+   mapped to l/1/y/2/y/3/f, which maps back to r/1/y/2/x/3/f  (known finding
+   sub-roundtrip-two-starstar: every node is of the property's grammar) *)
+Theorem C11_outside_grammar_refuted_two_starstar : exists A B path mapped back,
+  mk [114;47;42;42;47;120;47;42;42;47;42] = Ok A /\
+  mk [108;47;42;42;47;121;47;42;42;47;42] = Ok B /\
+  simple A /\ simple B /\
+  sub A B path = Ok (Some mapped) /\ sub B A mapped = Ok (Some back) /\ back <> path.
+Proof.
+  destruct (mk [114;47;42;42;47;120;47;42;42;47;42]) as [A|] eqn:EA; [|vm_compute in EA; discriminate].
+  destruct (mk [108;47;42;42;47;121;47;42;42;47;42]) as [B|] eqn:EB; [|vm_compute in EB; discriminate].
+  exists A, B, (of_ascii [114;47;49;47;120;47;50;47;121;47;51;47;102]),
+    (of_ascii [108;47;49;47;121;47;50;47;121;47;51;47;102]),
+    (of_ascii [114;47;49;47;121;47;50;47;120;47;51;47;102]).
+  vm_compute in EA. inversion EA; subst A. vm_compute in EB. inversion EB; subst B.
+  split; [reflexivity|]. split; [reflexivity|].
+  split; [split; [reflexivity|split; [reflexivity|constructor]]|].
+  split; [split; [reflexivity|split; [reflexivity|constructor]]|].
+  split; [vm_compute; reflexivity|]. split; [vm_compute; reflexivity|].
+  vm_compute. discriminate.
+Qed.
